@@ -17,10 +17,15 @@ location, both values of `callPreParse` and of `doActions`, and every fuel:
                           `parse … fails ↔ Sem … none`;
 * `plain_parse_stable`    two returning runs (any fuels, any `doActions`) give the same match.
 
-PARTIAL w.r.t. "parse_string succeeds iff the reading does": the direction "the reading has a result ⇒ the algorithm
-returns (does not loop)" is not proved here (`Sem` has no derivation exactly where a repetition body matches without
-advancing or a `Forward` recurses without consuming; the model answers `hang` there, and C06 covers termination of the
-real code); the fragment excludes `Or`, `Each`, `SkipTo`, `Word`/`Regex` terminals, parse actions and ignorables, for
+* `plain_parse_complete`  conversely, every result the reading derives (at a location inside the string, `≤ len + 1`) is
+                          returned by the algorithm once the fuel is large enough — for both values of `doActions`;
+* `plain_parse_eq_sem`    hence the closed statement: `(∃ fuel, parse … = ok e ts) ↔ Sem … (some (e, ts))`,
+                          `(∃ fuel l, parse … = fail l) ↔ Sem … none`, and the algorithm returns for some fuel **iff**
+                          the reading assigns the task a result at all (`plain_parse_returns_iff`): the runs that never
+                          return (a repetition body matching without advancing, a `Forward` recursing without
+                          consuming) are exactly the tasks the reading leaves undefined.
+
+PARTIAL w.r.t. the whole combinator language: the fragment excludes `Or`, `Each`, `SkipTo`, `Word`/`Regex` terminals, parse actions and ignorables, for
 which the clause theorems of Props/C01.lean and the reference-interpreter oracle remain the evidence.
 -/
 namespace PP.Parse
@@ -82,6 +87,52 @@ theorem plain_parse_ok_excludes_fail (g : Grammar) (s : List Char) (hg : Plain g
   have s2 := plain_parse_sound g s hg f2 id loc a2 cp
   rw [h1] at s1; rw [h2] at s2
   exact absurd (sem_deterministic g s _ _ _ s1 s2.2) (by simp)
+
+/-- completeness: what the reading derives, the algorithm returns (for every `doActions`) once the fuel suffices -/
+theorem plain_parse_complete (g : Grammar) (s : List Char) (hg : Plain g) (id loc : Nat) (cp : Bool)
+    (hl : loc ≤ s.length + 1) (r : Res) (h : Sem g s (.node id loc cp) r) :
+    ∃ f, ∀ a, match r with
+      | some x => parse g s f id loc a cp = .ok x.1 x.2
+      | none => ∃ l, parse g s f id loc a cp = .fail .parse l := by
+  obtain ⟨f, hf⟩ := Sem.complete hg h hl
+  refine ⟨f, fun a => ?_⟩
+  have := hf a
+  cases r with
+  | some x => exact this
+  | none => exact this
+
+/-- the closed statement for the plain fragment: the algorithm (at sufficient fuel) and the reading coincide -/
+theorem plain_parse_eq_sem (g : Grammar) (s : List Char) (hg : Plain g) (id loc : Nat) (a cp : Bool)
+    (hl : loc ≤ s.length + 1) :
+    (∀ e ts, (∃ f, parse g s f id loc a cp = .ok e ts) ↔ Sem g s (.node id loc cp) (some (e, ts))) ∧
+    ((∃ f c l, parse g s f id loc a cp = .fail c l) ↔ Sem g s (.node id loc cp) none) := by
+  refine ⟨fun e ts => ⟨fun ⟨f, hf⟩ => ?_, fun hs => ?_⟩, ⟨fun ⟨f, c, l, hf⟩ => ?_, fun hs => ?_⟩⟩
+  · have := plain_parse_sound g s hg f id loc a cp; rw [hf] at this; exact this
+  · obtain ⟨f, h⟩ := plain_parse_complete g s hg id loc cp hl _ hs; exact ⟨f, h a⟩
+  · have := plain_parse_sound g s hg f id loc a cp; rw [hf] at this; exact this.2
+  · obtain ⟨f, h⟩ := plain_parse_complete g s hg id loc cp hl _ hs
+    obtain ⟨l, h⟩ := h a
+    exact ⟨f, .parse, l, h⟩
+
+/-- the algorithm returns (for some fuel) exactly on the tasks to which the reading assigns a result -/
+theorem plain_parse_returns_iff (g : Grammar) (s : List Char) (hg : Plain g) (id loc : Nat) (a cp : Bool)
+    (hl : loc ≤ s.length + 1) :
+    (∃ f, parse g s f id loc a cp ≠ .hang) ↔ ∃ r, Sem g s (.node id loc cp) r := by
+  constructor
+  · rintro ⟨f, hf⟩
+    have h := plain_parse_sound g s hg f id loc a cp
+    cases hp : parse g s f id loc a cp with
+    | ok e ts => rw [hp] at h; exact ⟨_, h⟩
+    | fail c l => rw [hp] at h; exact ⟨_, h.2⟩
+    | idx => rw [hp] at h; exact h.elim
+    | hang => exact absurd hp hf
+  · rintro ⟨r, hs⟩
+    obtain ⟨f, h⟩ := plain_parse_complete g s hg id loc cp hl r hs
+    refine ⟨f, ?_⟩
+    have := h a
+    cases r with
+    | some x => simp only at this; rw [this]; simp
+    | none => obtain ⟨l, this⟩ := this; rw [this]; simp
 
 /-! ### non-vacuity: a concrete plain table with sharing, recursion through a Forward and mixed whitespace settings -/
 
